@@ -20,6 +20,8 @@ pub struct Variant {
     pub max_steps: u64,
     /// runs of this variant count as fault/non-trivial only when the run says so
     pub note: &'static str,
+    /// enumeration: this many consecutive run indices share one seed and differ in `sim::case()`
+    pub cases_per_seed: u64,
 }
 
 pub struct Property {
@@ -37,9 +39,12 @@ pub struct Property {
 }
 
 impl Property {
+    /// Variants are chosen per block of `max cases_per_seed` consecutive run indices, so that
+    /// the cases of one enumeration share a seed
     pub fn variant_for(&self, index: u64) -> &Variant {
+        let block = self.variants.iter().map(|v| v.cases_per_seed.max(1)).max().unwrap_or(1);
         let total: u64 = self.variants.iter().map(|v| v.weight as u64).sum();
-        let mut k = index % total.max(1);
+        let mut k = (index / block) % total.max(1);
         for v in &self.variants {
             if k < v.weight as u64 {
                 return v;
@@ -47,6 +52,16 @@ impl Property {
             k -= v.weight as u64;
         }
         &self.variants[0]
+    }
+    /// (seed index, case) of a run index
+    pub fn seed_and_case(&self, index: u64) -> (u64, u64) {
+        let v = self.variant_for(index);
+        let cps = v.cases_per_seed.max(1);
+        if cps == 1 {
+            (index, 0)
+        } else {
+            (index / cps, index % cps)
+        }
     }
     pub fn variant_named(&self, name: &str) -> Option<&Variant> {
         self.variants.iter().find(|v| v.name == name)
@@ -59,7 +74,8 @@ pub fn verif_root() -> String {
 
 pub static STEP_BEAT: AtomicU64 = AtomicU64::new(0);
 
-fn run_once(v: &Variant, seed: u64, source: Source, trace: bool) -> RunResult {
+fn run_once(v: &Variant, seed: u64, source: Source, trace: bool, case: u64) -> RunResult {
+    sim::set_case(case);
     let limits = Limits {
         max_steps: v.max_steps,
         ..Limits::default()
@@ -74,12 +90,12 @@ fn class_of(r: &RunResult) -> Option<(String, String)> {
 
 /// Hypothesis-style minimisation of the choice sequence: delete blocks, zero
 /// blocks, shrink single values — while the same violation class persists.
-fn minimise(v: &Variant, seed: u64, choices: Vec<u32>, class: &(String, String), budget: usize) -> (Vec<u32>, usize) {
+fn minimise(v: &Variant, seed: u64, case: u64, choices: Vec<u32>, class: &(String, String), budget: usize) -> (Vec<u32>, usize) {
     let mut best = choices;
     let mut execs = 0usize;
     let still = |cand: &Vec<u32>, execs: &mut usize| -> Option<Vec<u32>> {
         *execs += 1;
-        let r = run_once(v, seed, Source::Replay(cand.clone()), false);
+        let r = run_once(v, seed, Source::Replay(cand.clone()), false, case);
         if class_of(&r).as_ref() == Some(class) {
             // keep what was actually consumed
             let mut used = r.choices;
@@ -164,7 +180,7 @@ fn minimise(v: &Variant, seed: u64, choices: Vec<u32>, class: &(String, String),
     (best, execs)
 }
 
-fn violation_json(prop: &Property, v: &Variant, tier: &str, seed: u64, index: u64, r: &RunResult, minimised_from: usize) -> J {
+fn violation_json(prop: &Property, v: &Variant, tier: &str, seed: u64, index: u64, case: u64, r: &RunResult, minimised_from: usize) -> J {
     let viol = r.violation.as_ref().unwrap();
     json!({
         "property": prop.id,
@@ -172,6 +188,7 @@ fn violation_json(prop: &Property, v: &Variant, tier: &str, seed: u64, index: u6
         "tier": tier,
         "seed": seed.to_string(),
         "index": index,
+        "case": case,
         "config": r.config,
         "choices": r.choices,
         "violation": {
@@ -232,13 +249,14 @@ pub fn worker_main(prop: &Property, tier: &str, base_seed: u64, start: u64, stri
             break;
         }
         let v = prop.variant_for(idx);
-        let seed = derive_seed(base_seed, prop.id, idx);
+        let (seed_index, case) = prop.seed_and_case(idx);
+        let seed = derive_seed(base_seed, prop.id, seed_index);
         {
             let mut o = out.lock();
             let _ = writeln!(o, "S {} {} {}", idx, seed, v.name);
             let _ = o.flush();
         }
-        let r = run_once(v, seed, Source::Seed, false);
+        let r = run_once(v, seed, Source::Seed, false, case);
         t.runs += 1;
         t.steps += r.steps;
         t.vms += r.vms;
@@ -276,17 +294,17 @@ pub fn worker_main(prop: &Property, tier: &str, base_seed: u64, start: u64, stri
             if *n == 1 {
                 // minimise, then re-run with tracing to capture the tail
                 let from = r.choices.len();
-                let (min, _execs) = minimise(v, seed, r.choices.clone(), &class, 300);
-                let traced = run_once(v, seed, Source::Replay(min.clone()), true);
+                let (min, _execs) = minimise(v, seed, case, r.choices.clone(), &class, 300);
+                let traced = run_once(v, seed, Source::Replay(min.clone()), true, case);
                 let rec = if class_of(&traced).as_ref() == Some(&class) {
-                    violation_json(prop, v, tier, seed, idx, &traced, from)
+                    violation_json(prop, v, tier, seed, idx, case, &traced, from)
                 } else {
                     // minimisation result does not reproduce under tracing: report the original
-                    let orig = run_once(v, seed, Source::Replay(r.choices.clone()), true);
+                    let orig = run_once(v, seed, Source::Replay(r.choices.clone()), true, case);
                     if class_of(&orig).as_ref() == Some(&class) {
-                        violation_json(prop, v, tier, seed, idx, &orig, from)
+                        violation_json(prop, v, tier, seed, idx, case, &orig, from)
                     } else {
-                        let mut j = violation_json(prop, v, tier, seed, idx, &r, from);
+                        let mut j = violation_json(prop, v, tier, seed, idx, case, &r, from);
                         j["replay_unstable"] = json!(true);
                         j
                     }
@@ -439,7 +457,7 @@ pub fn orchestrate(prop: &Property, tier: &str, base_seed: u64, runs_override: O
                     if stalled { "one task poll did not return within 20 s of wall time" } else { "abort, stack overflow or allocation failure" }
                 );
                 violations.push(json!({
-                    "property": prop.id, "variant": var, "tier": tier, "seed": seed, "index": idx, "config": "", "choices": [],
+                    "property": prop.id, "variant": var, "tier": tier, "seed": seed, "index": idx, "case": prop.seed_and_case(idx).1, "config": "", "choices": [],
                     "from_seed": true,
                     "violation": {"kind": kind, "sig": "", "step": 0, "virtual_ms": 0, "message": msg, "harness": false},
                     "event_log_hash": "", "event_log_tail": [], "minimised_from": 0
@@ -651,7 +669,8 @@ pub fn replay_main(props: &[Property], path: &str, quiet: bool) -> i32 {
         .map(|a| a.iter().map(|x| x.as_u64().unwrap_or(0) as u32).collect())
         .unwrap_or_default();
     let source = if from_seed { Source::Seed } else { Source::Replay(choices) };
-    let r = run_once(v, seed, source, true);
+    let case = j["case"].as_u64().unwrap_or(0);
+    let r = run_once(v, seed, source, true, case);
     let want_kind = j["violation"]["kind"].as_str().unwrap_or("");
     let want_sig = j["violation"]["sig"].as_str().unwrap_or("");
     let want_hash = j["event_log_hash"].as_str().unwrap_or("");
